@@ -149,6 +149,7 @@ pub open spec fn added_items(o: Transport, f: Transport) -> Seq<Seq<u8>> { f.fra
 
 impl Transport {
 //@@ fn file=fe2o3-amqp/src/transport/mod.rs impl=`impl<Io> Sink<amqp::Frame> for Transport<Io, amqp::Frame> where Io: AsyncWrite + Unpin,` name=start_send
+//@@ attr #[verifier::loop_isolation(false)]
 //@@ shape loops=while;stmt-2=let writer
 //@@ qmark
 //@@ subst `mut self: std::pin::Pin<&mut Self>` => `&mut self` rule=R3
